@@ -25,7 +25,10 @@ LowerSeq(sq) == [i \in 1..Len(sq) |-> Lower(sq[i])]
 Absent == <<"absent">>
 \* the default network is spelled by the four classes a a a a in the harness ("iota"); it is marked by its own symbol
 IsDefault(sq) == LowerSeq(sq) = <<"i">>          \* "i" = the literal text iota (any case)
-NetValidCI(sq) == sq = Absent \/ IsDefault(sq) \/ (Len(sq) \in 1..6 /\ \A i \in 1..Len(sq) : Lower(sq[i]) \in {"a", "1"})
+\* "i"/"I" stand for the four letters of "iota": a name may CONTAIN that text ("iota1", "xiota") without being the default
+RECURSIVE RealLen(_)
+RealLen(sq) == IF sq = <<>> THEN 0 ELSE (IF Head(sq) \in {"i", "I"} THEN 4 ELSE 1) + RealLen(Tail(sq))
+NetValidCI(sq) == sq = Absent \/ (RealLen(sq) \in 1..6 /\ \A i \in 1..Len(sq) : Lower(sq[i]) \in {"a", "1", "i"})
 TagValidCI(t) == t.len = 64 /\ t.hex # "nonhex" /\ t.pfx \in {"0x", "0X"}
 
 ValidCI(r) == /\ r.method \in {"iota", "IOTA", "Iota"}
@@ -44,7 +47,7 @@ Rows == {r \in [kind : {"parse"}, method : Methods, net : NetSeqs, tag : Tags, e
            ~(r.extra /\ r.net = Absent)}
 
 \* IotaDID::new(bytes, network): the name must be a valid network name exactly as given (no case folding here)
-NetValidExact(sq) == sq = <<"i">> \/ (Len(sq) \in 1..6 /\ \A i \in 1..Len(sq) : sq[i] \in {"a", "1"})
+NetValidExact(sq) == RealLen(sq) \in 1..6 /\ \A i \in 1..Len(sq) : sq[i] \in {"a", "1", "i"}
 NewRows == [kind : {"new"}, net : NetSeqs \ {Absent}, via : {"try_from", "serde"}, bytes : {"zeros", "ones", "mixed"}]
 EvaluateNew(r) == IF NetValidExact(r.net) THEN [valid |-> TRUE, net |-> CanonNet(r.net)] ELSE [valid |-> FALSE]
 
@@ -54,6 +57,6 @@ Next == UNCHANGED vars
 Spec == Init /\ [][Next]_vars
 
 \* sanity of the table itself: the normal form never shows an upper-case class or the default network
-CanonIsLower == out.valid => \A i \in 1..Len(out.net) : out.net[i] \notin {"A", "i"}
+CanonIsLower == out.valid => (out.net # <<"i">> /\ \A i \in 1..Len(out.net) : out.net[i] \notin {"A", "I"})
 Emit == PrintT(<<"CASE", ToJson([row |-> row, out |-> out])>>)
 =============================================================================
